@@ -7,15 +7,34 @@ open N2k.Send N2k.Time N2k.Spec
 def wire (x y : Node) : Node × Node :=
   ({ x with s := { x.s with drv := { x.s.drv with sent := [] } } }, { y with rxq := y.rxq ++ x.s.drv.sent })
 
-/-- one exchange: what A sent reaches B, B polls; what B sent reaches A, A polls -/
-def round (ab : Node × Node) : Node × Node :=
-  let w1 := wire ab.1 ab.2
-  let w2 := wire (poll w1.2) w1.1
-  (poll w2.2, w2.1)
+/-- the node's clock shows `t` -/
+def atTime (n : Node) (t : Nat) : Node := { n with s := { n.s with now := t } }
 
-def rounds : Nat → Node × Node → Node × Node
-  | 0, ab => ab
-  | k+1, ab => rounds k (round ab)
+/-- `d` milliseconds pass -/
+def advance (n : Node) (d : Nat) : Node := atTime n (n.s.now + d)
+
+/-- one exchange: what A sent reaches B, B polls `dB` ms after its previous poll; what B sent reaches A, A polls `dA` ms
+after its previous poll (the two clocks need not agree) -/
+def round (dB dA : Nat) (ab : Node × Node) : Node × Node :=
+  let w1 := wire ab.1 ab.2
+  let w2 := wire (poll (advance w1.2 dB)) w1.1
+  (poll (advance w2.2 dA), w2.1)
+
+/-- a sequence of exchanges with the given delays `(dB, dA)` -/
+def rounds : List (Nat × Nat) → Node × Node → Node × Node
+  | [], ab => ab
+  | p :: t, ab => rounds t (round p.1 p.2 ab)
+
+/-- total time that passes at A -/
+def totalA (ds : List (Nat × Nat)) : Nat := (ds.map (·.2)).sum
+
+theorem atTime_self (n : Node) : atTime n n.s.now = n := rfl
+theorem advance_upd (n : Node) (t d : Nat) (tp : Nat → TpDev) (sl : List Slot) (out : List Delivery) (fs rxq : List Frame) :
+    advance ((atTime n t).upd tp sl out fs rxq) d = (atTime n (t + d)).upd tp sl out fs rxq := rfl
+theorem atTime_quiet {n : Node} {i : Nat} (t : Nat) (h : Quiet n.s i) : Quiet (atTime n t).s i :=
+  ⟨h.dev, h.notListen, h.active, h.ringEmpty, h.script, h.dflt, h.notFpCM, h.notFpDT⟩
+theorem txTp_atTime (n : Node) (t : Nat) (m : Msg) (seq t0 tmo : Nat) : txTp (atTime n t) m seq t0 tmo = txTp n m seq t0 tmo := rfl
+theorem doneTp_atTime (n : Node) (t : Nat) (m : Msg) (seq : Nat) : doneTp (atTime n t) m seq = doneTp n m seq := rfl
 
 theorem wire_upd (x y : Node) (tp : Nat → TpDev) (sl : List Slot) (out : List Delivery) (fs rxq : List Frame)
     (tp' : Nat → TpDev) (sl' : List Slot) (out' : List Delivery) (fs' rxq' : List Frame) :
@@ -24,9 +43,9 @@ theorem wire_upd (x y : Node) (tp : Nat → TpDev) (sl : List Slot) (out : List 
 section
 variable (a b : Node) (da db : Dev) (m : Msg) (j : Nat) (S' : List Slot) (a0 : Slot)
 
-/-- the sender after the CTS for packets from `k` on was answered -/
-def snd (k : Nat) : Node :=
-  a.upd (txTp a m (k + min (tpCtsPackets (tpPacketCount m.len)) (tpPacketCount m.len - k)) 100) a.slots a.out
+/-- the sender after the CTS for packets from `k` on was answered at time `tA` -/
+def snd (tA k : Nat) : Node :=
+  (atTime a tA).upd (txTp a m (k + min (tpCtsPackets (tpPacketCount m.len)) (tpPacketCount m.len - k)) tA 100) a.slots a.out
     ((List.range (min (tpCtsPackets (tpPacketCount m.len)) (tpPacketCount m.len - k))).map fun x => dtFrame da.source m (k + x)) []
 
 /-- hypotheses of the exchange (`m` is the pending message, i.e. with the sender's address as source) -/
@@ -35,7 +54,6 @@ structure LinkHyp : Prop where
   devB : b.s.devs = [db]
   qa : Quiet a.s 0
   qb : Quiet b.s 0
-  h64 : a.s.now + 100 < M64
   bIdle : (b.tp 0).hasPending = false
   mdst : m.dst = db.source
   len9 : 9 ≤ m.len
@@ -67,89 +85,120 @@ theorem LinkHyp.none (h : LinkHyp a b da db m j S' a0) : findIdx (sessOf da.sour
 
 theorem LinkHyp.jlt (h : LinkHyp a b da db m j S' a0) : j < S'.length := findIdx_lt _ _ _ h.hj
 
-/-- first round: RTS → CTS(1) → first window -/
-theorem round_first (h : LinkHyp a b da db m j S' a0) :
-    round (a.upd (txTp a m 0 50) a.slots a.out [cmFrame da.source m.dst (announceBytes 16 m)] [], b.upd b.tp b.slots [] [] []) =
-      (snd a da m 0, rcv b db m da.source j S' a0 [] 0 [] []) := by
-  have hsa := h.srcA
-  have hsb := h.dstB
-  unfold round
-  simp only [wire_upd, List.nil_append]
-  rw [poll_rts b db m da.source j S' a0 h.devB h.qb (by omega) h.mdst h.len223 h.pgn24 h.bIdle h.known h.hS h.hj h.ha0]
-  unfold rcv
-  simp only [wire_upd, List.nil_append]
-  rw [poll_cts a da m db.source 0 50 (tpPacketCount m.len) a.slots a.out h.devA h.qa h.mdst (by omega) h.len223 h.pgn24
-        (by omega) h.h64 (by omega)]
-  simp only [snd, Nat.zero_add, Nat.sub_zero]
+theorem LinkHyp.at (h : LinkHyp a b da db m j S' a0) (tA tB : Nat) : LinkHyp (atTime a tA) (atTime b tB) da db m j S' a0 :=
+  ⟨h.devA, h.devB, atTime_quiet tA h.qa, atTime_quiet tB h.qb, h.bIdle, h.mdst, h.len9, h.len223, h.hdata, h.pgn24, h.pgn0,
+   h.known, h.hS, h.hj, h.ha0⟩
 
-/-- a middle round: a full window that is not the last one → next CTS → next window -/
-theorem round_mid (h : LinkHyp a b da db m j S' a0) (k : Nat) (hkc : k % tpCtsPackets (tpPacketCount m.len) = 0)
-    (hmore : k + tpCtsPackets (tpPacketCount m.len) < tpPacketCount m.len) :
-    round (snd a da m k, rcv b db m da.source j S' a0 [] k [] []) =
-      (snd a da m (k + tpCtsPackets (tpPacketCount m.len)), rcv b db m da.source j S' a0 [] (k + tpCtsPackets (tpPacketCount m.len)) [] []) := by
+/-- first round: RTS → CTS(1) → first window (A polls less than 50 ms after `SendMsg`) -/
+theorem round_first (h : LinkHyp a b da db m j S' a0) (tA tB dB dA : Nat) (hdA : dA < 50) (h64 : tA + dA + 100 < M64) :
+    round dB dA ((atTime a tA).upd (txTp a m 0 tA 50) a.slots a.out [cmFrame da.source m.dst (announceBytes 16 m)] [],
+                 (atTime b tB).upd b.tp b.slots [] [] []) =
+      (snd a da m (tA + dA) 0, rcv (atTime b (tB + dB)) db m da.source j S' a0 (millis32 (tB + dB)) [] 0 [] []) := by
   have hsa := h.srcA
   have hsb := h.dstB
+  have h' := h.at (tA + dA) (tB + dB)
+  unfold round
+  simp only [wire_upd, List.nil_append, advance_upd]
+  have hp := poll_rts (atTime b (tB + dB)) db m da.source j S' a0 h'.devB h'.qb (by omega) h.mdst h.len223 h.pgn24 h.bIdle h.known
+    h.hS h.hj h.ha0
+  rw [show (atTime b (tB + dB)).tp = b.tp from rfl, show (atTime b (tB + dB)).slots = b.slots from rfl] at hp
+  rw [hp]
+  unfold rcv
+  simp only [wire_upd, List.nil_append, advance_upd]
+  have hc := poll_cts (atTime a (tA + dA)) da m db.source 0 tA 50 (tpPacketCount m.len) a.slots a.out h'.devA h'.qa h.mdst
+    (by omega) h.len223 h.pgn24 (by omega) ⟨by show tA ≤ tA + dA; omega, by show tA + dA < tA + 50; omega⟩
+    (by show tA + dA + 100 < M64; exact h64) (by omega)
+  rw [txTp_atTime, txTp_atTime] at hc
+  rw [hc]
+  simp only [snd, Nat.zero_add, Nat.sub_zero]
+  rfl
+
+/-- a middle round: a full window that is not the last one → next CTS → next window (A polls less than 100 ms after its last poll) -/
+theorem round_mid (h : LinkHyp a b da db m j S' a0) (k tA tB mt dB dA : Nat) (hkc : k % tpCtsPackets (tpPacketCount m.len) = 0)
+    (hmore : k + tpCtsPackets (tpPacketCount m.len) < tpPacketCount m.len) (hdA : dA < 100) (h64 : tA + dA + 100 < M64) :
+    round dB dA (snd a da m tA k, rcv (atTime b tB) db m da.source j S' a0 mt [] k [] []) =
+      (snd a da m (tA + dA) (k + tpCtsPackets (tpPacketCount m.len)),
+       rcv (atTime b (tB + dB)) db m da.source j S' a0 (millis32 (tB + dB)) [] (k + tpCtsPackets (tpPacketCount m.len)) [] []) := by
+  have hsa := h.srcA
+  have hsb := h.dstB
+  have h' := h.at (tA + dA) (tB + dB)
   have hmin : min (tpCtsPackets (tpPacketCount m.len)) (tpPacketCount m.len - k) = tpCtsPackets (tpPacketCount m.len) := by omega
   have htight := tpPacketCount_tight m.len (by have := h.len9; omega)
   have hpc := tpPacketCount_le m.len h.len223
   unfold round snd rcv
-  simp only [wire_upd, List.nil_append, hmin]
-  have hw := poll_window b db m da.source j S' a0 k (tpCtsPackets (tpPacketCount m.len)) rfl h.devB h.qb (by omega) h.mdst h.none h.jlt
-    h.len223 h.bIdle hkc (by omega)
+  simp only [wire_upd, List.nil_append, hmin, advance_upd]
+  have hw := poll_window (atTime b (tB + dB)) db m da.source j S' a0 k (tpCtsPackets (tpPacketCount m.len)) mt rfl h'.devB h'.qb
+    (by omega) h.mdst h.none h.jlt h.len223 h.bIdle hkc (by omega)
   unfold rcv at hw
+  rw [show (atTime b (tB + dB)).tp = b.tp from rfl] at hw
+  rw [show (atTime b tB).tp = b.tp from rfl]
   rw [hw]
-  simp only [wire_upd, List.nil_append]
-  rw [poll_cts a da m db.source (k + tpCtsPackets (tpPacketCount m.len)) 100 (tpPacketCount m.len) a.slots a.out h.devA h.qa h.mdst
-        (by omega) h.len223 h.pgn24 (by omega) h.h64 (by omega)]
+  simp only [wire_upd, List.nil_append, advance_upd]
+  have hc := poll_cts (atTime a (tA + dA)) da m db.source (k + tpCtsPackets (tpPacketCount m.len)) tA 100 (tpPacketCount m.len) a.slots a.out
+    h'.devA h'.qa h.mdst (by omega) h.len223 h.pgn24 (by omega) ⟨by show tA ≤ tA + dA; omega, by show tA + dA < tA + 100; omega⟩
+    (by show tA + dA + 100 < M64; exact h64) (by omega)
+  rw [txTp_atTime, txTp_atTime] at hc
+  rw [hc]
+  rfl
 
 /-- the last round: last window → EndOfMsgACK and delivery → the sender ends the transfer -/
-theorem round_last (h : LinkHyp a b da db m j S' a0) (k : Nat) (hkc : k % tpCtsPackets (tpPacketCount m.len) = 0)
-    (hk : k < tpPacketCount m.len) (hlast : tpPacketCount m.len ≤ k + tpCtsPackets (tpPacketCount m.len)) :
-    ∃ S'', round (snd a da m k, rcv b db m da.source j S' a0 [] k [] []) =
-      (a.upd (doneTp a m (tpPacketCount m.len)) a.slots a.out [] [],
-       b.upd b.tp S'' [{ pgn := m.pgn, src := da.source, dst := db.source, prio := 7, len := m.len, tp := true,
-                          data := m.data.take m.len }] [] []) := by
+theorem round_last (h : LinkHyp a b da db m j S' a0) (k tA tB mt dB dA : Nat) (hkc : k % tpCtsPackets (tpPacketCount m.len) = 0)
+    (hk : k < tpPacketCount m.len) (hlast : tpPacketCount m.len ≤ k + tpCtsPackets (tpPacketCount m.len))
+    (hdA : dA < 100) (h64 : tA + dA + 100 < M64) :
+    ∃ S'', round dB dA (snd a da m tA k, rcv (atTime b tB) db m da.source j S' a0 mt [] k [] []) =
+      ((atTime a (tA + dA)).upd (doneTp a m (tpPacketCount m.len)) a.slots a.out [] [],
+       (atTime b (tB + dB)).upd b.tp S'' [delivered m da.source db.source] [] []) := by
   have hsa := h.srcA
   have hsb := h.dstB
+  have h' := h.at (tA + dA) (tB + dB)
   have hmin : min (tpCtsPackets (tpPacketCount m.len)) (tpPacketCount m.len - k) = tpPacketCount m.len - k := by omega
   have htight := tpPacketCount_tight m.len (by have := h.len9; omega)
   have hcov := tpPacketCount_cover m.len
   have hpc := tpPacketCount_le m.len h.len223
   unfold round snd rcv
-  simp only [wire_upd, List.nil_append, hmin]
-  obtain ⟨S'', hw⟩ := poll_last b db m da.source j S' a0 k (tpCtsPackets (tpPacketCount m.len)) (tpPacketCount m.len - k) rfl h.devB h.qb
-    (by omega) h.mdst h.none h.jlt h.len223 h.hdata h.bIdle hkc (by omega) (by omega) (by omega)
+  simp only [wire_upd, List.nil_append, hmin, advance_upd]
+  obtain ⟨S'', hw⟩ := poll_last (atTime b (tB + dB)) db m da.source j S' a0 k (tpCtsPackets (tpPacketCount m.len)) (tpPacketCount m.len - k) mt
+    rfl h'.devB h'.qb (by omega) h.mdst h.none h.jlt h.len223 h.hdata h.bIdle hkc (by omega) (by omega) (by omega)
   unfold rcv at hw
+  rw [show (atTime b (tB + dB)).tp = b.tp from rfl] at hw
+  rw [show (atTime b tB).tp = b.tp from rfl]
   rw [hw]
   refine ⟨S'', ?_⟩
-  simp only [wire_upd, List.nil_append]
+  simp only [wire_upd, List.nil_append, advance_upd]
   have e : k + (tpPacketCount m.len - k) = tpPacketCount m.len := by omega
   rw [e]
-  rw [poll_endack a da m db.source (tpPacketCount m.len) 100 m.len (tpPacketCount m.len) a.slots a.out h.devA h.qa h.mdst (by omega)
-        h.pgn24 (by omega) h.h64]
+  have hc := poll_endack (atTime a (tA + dA)) da m db.source (tpPacketCount m.len) tA 100 m.len (tpPacketCount m.len) a.slots a.out
+    h'.devA h'.qa h.mdst (by omega) h.pgn24 (by omega) ⟨by show tA ≤ tA + dA; omega, by show tA + dA < tA + 100; omega⟩
+    (by show tA + dA + 100 < M64; exact h64)
+  rw [txTp_atTime, doneTp_atTime] at hc
+  rw [hc]
 
-/-- from any window start the transfer completes within the remaining number of windows -/
-theorem rounds_complete (h : LinkHyp a b da db m j S' a0) : ∀ (fuel k : Nat), k % tpCtsPackets (tpPacketCount m.len) = 0 →
-    k < tpPacketCount m.len → tpPacketCount m.len - k ≤ fuel * tpCtsPackets (tpPacketCount m.len) →
-    ∃ r S'', r ≤ fuel ∧ rounds r (snd a da m k, rcv b db m da.source j S' a0 [] k [] []) =
-      (a.upd (doneTp a m (tpPacketCount m.len)) a.slots a.out [] [],
-       b.upd b.tp S'' [{ pgn := m.pgn, src := da.source, dst := db.source, prio := 7, len := m.len, tp := true,
-                          data := m.data.take m.len }] [] [])
-  | 0, k, _, hk, hf => by omega
-  | fuel+1, k, hkc, hk, hf => by
+/-- from any window start the transfer completes within the remaining number of windows, whatever the delays below 100 ms -/
+theorem rounds_complete (h : LinkHyp a b da db m j S' a0) : ∀ (fuel k tA tB mt : Nat) (ds : List (Nat × Nat)),
+    k % tpCtsPackets (tpPacketCount m.len) = 0 → k < tpPacketCount m.len →
+    tpPacketCount m.len - k ≤ fuel * tpCtsPackets (tpPacketCount m.len) → fuel ≤ ds.length → (∀ p ∈ ds, p.2 < 100) →
+    tA + totalA ds + 100 < M64 →
+    ∃ r S'' tA' tB', r ≤ fuel ∧ rounds (ds.take r) (snd a da m tA k, rcv (atTime b tB) db m da.source j S' a0 mt [] k [] []) =
+      ((atTime a tA').upd (doneTp a m (tpPacketCount m.len)) a.slots a.out [] [],
+       (atTime b tB').upd b.tp S'' [delivered m da.source db.source] [] [])
+  | 0, k, _, _, _, _, _, hk, hf, _, _, _ => by omega
+  | fuel+1, k, tA, tB, mt, [], _, _, _, hl, _, _ => by simp at hl
+  | fuel+1, k, tA, tB, mt, p :: ds, hkc, hk, hf, hl, hd, h64 => by
+    have hp : p.2 < 100 := hd p (by simp)
+    have htot : totalA (p :: ds) = p.2 + totalA ds := by simp [totalA]
     by_cases hlast : tpPacketCount m.len ≤ k + tpCtsPackets (tpPacketCount m.len)
-    · obtain ⟨S'', hr⟩ := round_last h k hkc hk hlast
-      exact ⟨1, S'', by omega, by simp only [rounds]; exact hr⟩
+    · obtain ⟨S'', hr⟩ := round_last h k tA tB mt p.1 p.2 hkc hk hlast hp (by omega)
+      exact ⟨1, S'', tA + p.2, tB + p.1, by omega, by simp only [List.take_succ_cons, List.take_zero, rounds]; exact hr⟩
     · have hmore : k + tpCtsPackets (tpPacketCount m.len) < tpPacketCount m.len := by omega
       have hcpos := tpCtsPackets_pos (tpPacketCount m.len)
-      obtain ⟨r, S'', hr, hR⟩ := rounds_complete h fuel (k + tpCtsPackets (tpPacketCount m.len))
-        (add_mod_self_of_dvd k _ hkc) hmore (by
+      obtain ⟨r, S'', tA', tB', hr, hR⟩ := rounds_complete h fuel (k + tpCtsPackets (tpPacketCount m.len)) (tA + p.2) (tB + p.1)
+        (millis32 (tB + p.1)) ds (add_mod_self_of_dvd k _ hkc) hmore (by
           have : (fuel + 1) * tpCtsPackets (tpPacketCount m.len) = fuel * tpCtsPackets (tpPacketCount m.len) + tpCtsPackets (tpPacketCount m.len) := by
             rw [Nat.add_mul, Nat.one_mul]
-          omega)
-      refine ⟨r + 1, S'', by omega, ?_⟩
-      simp only [rounds]
-      rw [round_mid h k hkc hmore]
+          omega) (by simpa using hl) (fun q hq => hd q (by simp [hq])) (by omega)
+      refine ⟨r + 1, S'', tA', tB', by omega, ?_⟩
+      simp only [List.take_succ_cons, rounds]
+      rw [round_mid h k tA tB mt p.1 p.2 hkc hmore hp (by omega)]
       exact hR
 
 end
